@@ -23,7 +23,8 @@ try:
     if r.returncode:
         print("PATCH FAILED", r.stdout, r.stderr)
         sys.exit(2)
-    env = dict(os.environ, PYTHONPATH=d, VERIF_SEED=ns.seed, VF_REPLAY_OUT=os.path.join(d, "replays"), VF_NOSHRINK="1")
+    env = dict(os.environ, PYTHONPATH=d, VERIF_SEED=ns.seed, VF_REPLAY_OUT=os.path.join(d, "replays"), VF_NOSHRINK="1",
+               VF_EVIDENCE_OUT=os.path.join(d, "evidence"))
     caught = []
     for p in props:
         out = subprocess.run(["/venv/bin/python", "-m", "vf.run", p, "--tier", ns.tier], cwd="/verif", env=env,
